@@ -8,7 +8,10 @@
    The same for whitespace inserted at any insertion point of the prolog before a DOCTYPE (after the BOM / XML
    declaration, after each comment or PI of the first Misc run; insertion_point is defined operationally and is
    decidable by insertion_point_b): parse_err_shift_mid_partial, parse_ok_shift_mid_partial and the spaces / lines
-   corollaries (an error on the insertion point's row moves by k columns; k line breaks move the row by k).
+   corollaries (an error on the insertion point's row moves by k columns; k line breaks move the row by k).  And for
+   insertion points AFTER a DOCTYPE (between the DOCTYPE and the root, after later comments / PIs) when the DOCTYPE
+   records no general entity (parameter / external entities, ELEMENT / ATTLIST / NOTATION, comments and PIs inside the
+   subset are allowed): parse_err_shift_dtd, parse_ok_shift_dtd.
    Statements are pinned here (copied verbatim from the proof files by tools/pin_props.py);
    each is re-proved by `exact` and followed by Print Assumptions. *)
 From Coq Require Import Ascii String.
@@ -16,7 +19,7 @@ From Coq Require Import List NArith Bool PeanoNat Sorted.
 Import ListNotations.
 From RX Require Import Generated.
 From RX.Model Require Import Base CharClass Stream Tokenizer Doc Builder Parse Api.
-From RX.Proofs Require Import PositionProofs ErrPosStream ErrPosTokenizer ErrPosParse ErrPayload RangeShiftBuilder ErrShiftBase ErrShiftFinal ErrShiftMidCore ErrShiftMidFinal.
+From RX.Proofs Require Import PositionProofs ErrPosStream ErrPosTokenizer ErrPosParse ErrPayload RangeShiftBuilder ErrShiftBase ErrShiftFinal ErrShiftMidCore ErrShiftMidFinal ErrShiftDtdFinal.
 Open Scope N_scope.
 
 (* ---- Proofs/PositionProofs.v ---- *)
@@ -168,8 +171,55 @@ Theorem C14_parse_err_shift_mid_lines :
 Proof. exact parse_err_shift_mid_lines. Qed.
 Print Assumptions C14_parse_err_shift_mid_lines.
 
+(* ---- Proofs/ErrShiftDtdFinal.v ---- *)
+Theorem C14_parse_err_shift_dtd :
+  forall pre ws post opt e,
+  forallb byte_is_space ws = true -> valid_utf8_b post = true -> post <> [] ->
+  dtd_point_noent pre post opt ->
+  parse (pre ++ post) opt = Err e ->
+  exists e', parse (pre ++ ws ++ post) opt = Err e' /\
+    err_kind e = err_kind e' /\
+    (has_pos e = false -> e' = e) /\
+    (has_pos e = true -> exists off, blen pre <= off /\ off <= tlen (pre ++ post) /\
+        is_boundary (pre ++ post) off = true /\
+        text_pos_at (pre ++ post) off = Ok (error_pos e) /\
+        text_pos_at (pre ++ ws ++ post) (off + blen ws) = Ok (error_pos e')).
+Proof. exact parse_err_shift_dtd. Qed.
+Print Assumptions C14_parse_err_shift_dtd.
+
+Theorem C14_parse_ok_shift_dtd :
+  forall pre ws post opt d,
+  forallb byte_is_space ws = true -> valid_utf8_b post = true -> post <> [] ->
+  dtd_point_noent pre post opt ->
+  parse (pre ++ post) opt = Ok d ->
+  parse (pre ++ ws ++ post) opt = Ok (mid_doc (blen pre) (blen ws) d).
+Proof. exact parse_ok_shift_dtd. Qed.
+Print Assumptions C14_parse_ok_shift_dtd.
+
+Theorem C14_parse_err_shift_dtd_spaces :
+  forall k pre post opt e,
+  valid_utf8_b post = true -> post <> [] -> dtd_point_noent pre post opt ->
+  parse (pre ++ post) opt = Err e -> has_pos e = true ->
+  exists e' rP cP, parse (pre ++ repeat 32 k ++ post) opt = Err e' /\ err_kind e = err_kind e' /\
+    text_pos_at (pre ++ post) (blen pre) = Ok (rP, cP) /\
+    error_pos e' = (fst (error_pos e),
+                    if fst (error_pos e) =? rP then N.of_nat k + snd (error_pos e) else snd (error_pos e)).
+Proof. exact parse_err_shift_dtd_spaces. Qed.
+Print Assumptions C14_parse_err_shift_dtd_spaces.
+
+Theorem C14_parse_err_shift_dtd_lines :
+  forall k pre post opt e, (0 < k)%nat ->
+  valid_utf8_b post = true -> post <> [] -> dtd_point_noent pre post opt ->
+  parse (pre ++ post) opt = Err e -> has_pos e = true ->
+  exists e' rP cP, parse (pre ++ repeat 10 k ++ post) opt = Err e' /\ err_kind e = err_kind e' /\
+    text_pos_at (pre ++ post) (blen pre) = Ok (rP, cP) /\
+    error_pos e' = (N.of_nat k + fst (error_pos e),
+                    if fst (error_pos e) =? rP then snd (error_pos e) - (cP - 1) else snd (error_pos e)).
+Proof. exact parse_err_shift_dtd_lines. Qed.
+Print Assumptions C14_parse_err_shift_dtd_lines.
+
 (* ---- Proofs/ErrPosTokenizer.v ---- *)
-Module G3.
+Module G4.
 Local Notation token := Tokenizer.token.
 Theorem C14_tokenizer_errors_positioned :
   forall text (C : Type) (ev : token -> C -> res C) dtd c e,
@@ -178,7 +228,7 @@ Theorem C14_tokenizer_errors_positioned :
 Proof. exact tokenizer_errors_positioned. Qed.
 Print Assumptions C14_tokenizer_errors_positioned.
 
-End G3.
+End G4.
 
 (* ---- Proofs/ErrPosParse.v ---- *)
 Theorem C14_token_errors_positioned :
